@@ -1,7 +1,7 @@
 #!/bin/sh
 # run every kept seeded change against the check of its property (quick tier); prints caught/missed; restores /repo after each
 cd /verif
-for d in /verif/seeded/*/; do
+for d in /verif/seeded/C*/; do
   id=$(basename $d); prop=${id%-*}
   if ! git -C /repo apply --check $d/patch.diff 2>/dev/null; then echo "$id DOES-NOT-APPLY"; continue; fi
   git -C /repo apply $d/patch.diff
